@@ -316,8 +316,9 @@ static J gen_c16 (uint64_t seed, uint64_t idx)
 	GenCtx g (sub_seed (seed, "C16", idx)) ;
 	// bias: ALAC (temp files), SD2 (resource fork), chunk / metadata capable containers
 	const Fmt *fp = &fmts [idx % fmts.size ()] ;
-	if (g.rng.chance (0.25))
+	if (g.rng.chance (0.3))
 	{	std::vector<const Fmt *> pool ;
+		for (auto &f : fmts) if (f.major == SF_FORMAT_SD2) { pool.push_back (&f) ; pool.push_back (&f) ; pool.push_back (&f) ; }
 		for (auto &f : fmts) if ((f.sub >= SF_FORMAT_ALAC_16 && f.sub <= SF_FORMAT_ALAC_32) || f.major == SF_FORMAT_SD2 || chunk_capable (f)) pool.push_back (&f) ;
 		fp = g.rng.pick (pool) ;
 	}
@@ -360,6 +361,16 @@ static J gen_c16 (uint64_t seed, uint64_t idx)
 				e ["val"] = (long long) g.rng.pick<int64_t> ({ 0, 1, -1, 0x7f, 0x80, 0xff, 0x7fffffff, (int64_t) 0x80000000LL, 0xffffffffLL }) ; e ["width"] = (int) g.rng.pick<int> ({ 1, 2, 4, 8 }) ; e ["be"] = (int) g.rng.below (2) ;
 				e ["region"] = g.rng.chance (0.8) ? "head" : "any" ; e ["keep"] = (long long) g.rng.range (4, 64) ;
 				ed.push (e) ;
+			}
+			if (needs_path_route (f) && g.rng.chance (0.6))
+			{	c ["rsrc"] = 1 ;
+				if (g.rng.chance (0.5))
+				{	// resource map fields: located through the map offset stored at byte 4 of the fork (big endian)
+					J e = J::obj () ; e ["kind"] = "field_via" ; e ["ptr_off"] = 4 ; e ["ptr_width"] = 4 ; e ["ptr_be"] = 1 ;
+					e ["delta"] = (long long) g.rng.pick<int64_t> ({ 24, 26, 28, 30, 32, 34, 36, 38 }) ; e ["width"] = 2 ; e ["be"] = 1 ;
+					e ["val"] = (long long) g.rng.pick<int64_t> ({ 0, 1, 2, 0x7f, 0xff, 0x7ff0, 0x7fff, 0xfffe, 0xffff }) ;
+					ed = J::arr () ; ed.push (e) ;
+				}
 			}
 			c ["edits"] = ed ; ops.push (c) ;
 		}
@@ -522,7 +533,7 @@ static J gen_c03 (uint64_t seed, uint64_t idx)
 		e ["keep"] = (long long) g.rng.range (4, 128) ;
 		ed.push (e) ;
 	}
-	c ["edits"] = ed ; ops.push (c) ;
+	c ["edits"] = ed ; if (needs_path_route (f) && g.rng.chance (0.6)) c ["rsrc"] = 1 ; ops.push (c) ;
 	// reader
 	uint64_t rr = g.rng.below (100) ;
 	std::string rroute = needs_path_route (f) ? "path" : rr < 50 ? "vio" : rr < 70 ? "fd" : rr < 85 ? "path" : "fifo" ;
